@@ -1,10 +1,14 @@
 import DroopModel.Values
 /-!
-# `__str__` of Fixed, Guarded, Rational (negative values: sign, then the magnitude — repo commit "fix: values: str() of negative values")
+# `__str__` of Fixed, Guarded, Rational
+(negative values: sign, then the magnitude — repo commit "fix: values: str() of negative values")
+
+Two layers: the *display units* (the value rounded to the display precision, an integer count of 10^-d) and the
+rendering of display units as a decimal string.
 -/
 namespace Droop
 
-/-- Python `"%0Nd" % n` for n ≥ 0 (the second operand of the format is always `v % scale ≥ 0`) -/
+/-- Python `"%0Nd" % n` for n ≥ 0 -/
 def zpad (width : Nat) (n : Nat) : String :=
   let s := toString n
   String.ofList (List.replicate (width - s.length) '0') ++ s
@@ -13,33 +17,43 @@ def zpad (width : Nat) (n : Nat) : String :=
 def fmt2 (width : Nat) (a : Int) (b : Int) : String :=
   toString a ++ "." ++ zpad width b.toNat
 
-/-- sign prefix and magnitude of a scaled display value -/
+/-- sign prefix of a scaled display value -/
 def signStr (v : Int) : String := if v < 0 then "-" else ""
 
-/-- Fixed.__str__ ; `display` already clamped to `0 ≤ display ≤ precision` by initialize -/
-def strFixed (p display : Nat) (v : Int) : String :=
-  if p == 0 then toString v
-  else
-    let v1 := if display < p then pdiv (v + pow10 (p - display) / 2) (pow10 (p - display)) else v
-    signStr v1 ++ fmt2 display (pdiv v1.natAbs (pow10 display)) (pmod v1.natAbs (pow10 display))
+/-- `(v + scaledr) // scaledd`: a value stored with `P` digits, rounded half-up to `d ≤ P` digits -/
+def roundUnits (P d : Nat) (v : Int) : Int := pdiv (v + pow10 (P - d) / 2) (pow10 (P - d))
 
-/-- Guarded.__str__ ; `display` already clamped to `≤ p + g` -/
+/-- display units of a Fixed value; `display` already clamped to `0 ≤ display ≤ precision` by initialize -/
+def fixedUnits (p display : Nat) (v : Int) : Int := if display < p then roundUnits p display v else v
+
+/-- sign, integer part and `d` fraction digits of `u` display units -/
+def renderUnits (d : Nat) (u : Int) : String :=
+  signStr u ++ fmt2 d (pdiv u.natAbs (pow10 d)) (pmod u.natAbs (pow10 d))
+
+/-- Fixed.__str__ -/
+def strFixed (p display : Nat) (v : Int) : String :=
+  if p == 0 then toString v else renderUnits display (fixedUnits p display v)
+
+/-- display units of a Guarded value; `display` already clamped to `≤ p + g` -/
+def guardedUnits (p g display : Nat) (v : Int) : Int := roundUnits (g + p) display v
+
+/-- Guarded.__str__ : beyond `p` digits the guard digits are set off after an underscore -/
 def strGuarded (p g display : Nat) (v : Int) : String :=
-  let dd := pow10 (g + p - display)
-  let gv0 := pdiv (v + dd / 2) dd
+  let gv0 := guardedUnits p g display v
   let gv : Int := gv0.natAbs
   let sc := pow10 display
-  if display ≤ p then signStr gv0 ++ fmt2 display (pdiv gv sc) (pmod gv sc)
+  if display ≤ p then renderUnits display gv0
   else
     let gvp := pmod gv sc
     let sg := pow10 (display - p)
     signStr gv0 ++ toString (pdiv gv sc) ++ "." ++ zpad p (pdiv gvp sg).toNat ++ "_" ++ zpad (display - p) (pmod gvp sg).toNat
 
+/-- display units of a Rational value -/
+def rationalUnits (dp : Nat) (q : Rat) : Int :=
+  if q.num == 0 || q.den == 1 then q.num * pow10 dp
+  else ((q + (1 : Rat) / ((pow10 dp * 2 : Int) : Rat)) * (pow10 dp : Rat)).floor
+
 /-- Rational.__str__ -/
-def strRational (dp : Nat) (q : Rat) : String :=
-  let dps := pow10 dp
-  let v : Int := if q.num == 0 || q.den == 1 then q.num * dps
-                 else ((q + (1 : Rat) / ((dps * 2 : Int) : Rat)) * (dps : Rat)).floor
-  signStr v ++ fmt2 dp (pdiv v.natAbs dps) (pmod v.natAbs dps)
+def strRational (dp : Nat) (q : Rat) : String := renderUnits dp (rationalUnits dp q)
 
 end Droop
